@@ -48,3 +48,9 @@ package docker
 // plain-text form of a record: printing never panics, whatever the scanned host put into the record (C10 C08)
 //@ func (*ScanResult).String
 //@   props C10 C08
+
+// option constructors: each returns its own option closure over exactly its argument (verified here, inlined at call sites)
+//@ func WithDataTimeout
+//@   inline
+//@   props C10 C08
+//@   ensures closureof(ret, "WithDataTimeout$1") && capt(ret, "timeout") == timeout
